@@ -15,6 +15,10 @@ func intHeavyTables(r *RNG, n int) []*hTable {
 	for i := 0; i < n; i++ {
 		nc := r.Range(2, 9)
 		t := &hTable{id: uint64(200 + i*3), db: "d" + randName(r, 2), name: fmt.Sprintf("t%d", i)}
+		if r.Chance(1, 6) {
+			// ids at the ends of the 3- and 4-byte ranges (no id value is special to the replica)
+			t.id = []uint64{0 + uint64(3*i), 0xfffffd - uint64(3*i), 0xffffff + uint64(3*i), 0x1000000 + uint64(3*i), 0xfffffffc - uint64(3*i), 0xfffffffd - uint64(3*i)}[r.Intn(6)]
+		}
 		for c := 0; c < nc; c++ {
 			typ := []int{1, 2, 9, 3, 8}[r.Intn(5)]
 			col := hCol{typ: typ, nullable: true, name: fmt.Sprintf("c%d_%s", c, randName(r, 3)), unsigned: c%2 == i%2}
@@ -49,8 +53,11 @@ func intHeavyTables(r *RNG, n int) []*hTable {
 		// possibly another column count. Every change of the table an id stands for is announced.
 		if r.Chance(1, 3) {
 			v := &hTable{id: t.id, db: t.db, name: t.name + "r"}
-			if r.Chance(1, 3) {
+			switch r.Intn(4) {
+			case 0:
 				v.db, v.name = t.db+"r", t.name // the same table name in another schema, under the same id
+			case 1:
+				v.name = strings.ToUpper(t.name) // names differing in letter case only are different tables
 			}
 			nv := len(t.cols)
 			if r.Bool() {
@@ -142,6 +149,56 @@ func genAttributionHistoryOver(r *RNG, cfg string, tables []*hTable) *hist {
 		h.units = append(h.units, unit)
 	}
 	return h
+}
+
+// countRedefCases: a table id announced again FOR THE SAME TABLE with fewer / more columns, then a rows event of it: the
+// held table description (the mapper's answer at the first announcement) no longer fits - a decode / lookup failure
+// that must end the attempt with an error after the transactions delivered so far (C15: rejected instead of
+// mis-attributed; C06: reported, not swallowed).
+func countRedefCases(r *RNG, n int, key string) []Case {
+	var cs []Case
+	for i := 0; i < n; i++ {
+		h := &hist{cfg: allCfgs[i%len(allCfgs)], ext: map[string][]string{}}
+		base := intHeavyTables(r, 1)[0]
+		h.tables = []*hTable{base}
+		v := &hTable{id: base.id, db: base.db, name: base.name}
+		if r.Bool() && len(base.cols) > 1 {
+			v.cols = append(v.cols, base.cols[:len(base.cols)-r.Range(1, len(base.cols)-1)]...)
+		} else {
+			v.cols = append(append(v.cols, base.cols...), hCol{typ: 3, nullable: true, name: "extra"})
+		}
+		h.tables = append(h.tables, v)
+		o := histOpts{maxRows: 2}
+		ts := uint32(1600000000)
+		good := r.Range(1, 3)
+		for u := 0; u < good; u++ {
+			ts++
+			h.units = append(h.units, hUnit{kind: "tx", ts: ts, begin: "BEGIN", closer: fmt.Sprintf("x%d", u),
+				changes: []hChange{{rows: genRows(r, h, o, 0, ts, true)}}})
+		}
+		ts++
+		bad := hUnit{kind: "tx", ts: ts, begin: "BEGIN", closer: "x99"}
+		if r.Bool() {
+			bad.changes = append(bad.changes, hChange{rows: genRows(r, h, o, 0, ts, true)})
+		}
+		bad.changes = append(bad.changes, hChange{rows: genRows(r, h, o, 1, ts, true)})
+		h.units = append(h.units, bad)
+		c := histCase(h, firstFile, 4, "redefinition-changes-column-count", true, "")
+		hh, want := h, good
+		c.Run = func(resp map[string]string) Outcome {
+			impl, calls, _ := runParse(hh, splitPackets(resp["packets"]), firstFile, 4, -1, "", false)
+			out := Outcome{Impl: normCrash(impl), Model: normCrash(resp["model"]), OracleOK: true}
+			out.CorrOK = out.Impl == out.Model
+			if !strings.HasPrefix(impl, "err@") || len(calls) != want {
+				out.OracleOK = false
+				out.FindingKey = key
+				out.Note = fmt.Sprintf("a table id re-announced with another column count was not rejected with an error after the %d earlier transactions: %s", want, clip(impl, 200))
+			}
+			return out
+		}
+		cs = append(cs, c)
+	}
+	return cs
 }
 
 func init() {
@@ -296,47 +353,7 @@ func init() {
 		// mis-attributed" — also when the disagreement appears later: the id is announced again with fewer / more
 		// columns and a rows event of any kind follows. The attempt must end with an error after the transactions
 		// delivered so far, and nothing of the re-defined table may be delivered.
-		for i := 0; i < n/3; i++ {
-			h := &hist{cfg: allCfgs[i%len(allCfgs)], ext: map[string][]string{}}
-			base := intHeavyTables(r, 1)[0]
-			h.tables = []*hTable{base}
-			v := &hTable{id: base.id, db: base.db, name: base.name}
-			if r.Bool() && len(base.cols) > 1 {
-				v.cols = append(v.cols, base.cols[:len(base.cols)-r.Range(1, len(base.cols)-1)]...)
-			} else {
-				v.cols = append(append(v.cols, base.cols...), hCol{typ: 3, nullable: true, name: "extra"})
-			}
-			h.tables = append(h.tables, v)
-			o := histOpts{maxRows: 2}
-			ts := uint32(1600000000)
-			good := r.Range(1, 3)
-			for u := 0; u < good; u++ {
-				ts++
-				h.units = append(h.units, hUnit{kind: "tx", ts: ts, begin: "BEGIN", closer: fmt.Sprintf("x%d", u),
-					changes: []hChange{{rows: genRows(r, h, o, 0, ts, true)}}})
-			}
-			ts++
-			bad := hUnit{kind: "tx", ts: ts, begin: "BEGIN", closer: "x99"}
-			if r.Bool() {
-				bad.changes = append(bad.changes, hChange{rows: genRows(r, h, o, 0, ts, true)})
-			}
-			bad.changes = append(bad.changes, hChange{rows: genRows(r, h, o, 1, ts, true)})
-			h.units = append(h.units, bad)
-			c := histCase(h, firstFile, 4, "redefinition-changes-column-count", true, "")
-			hh, want := h, good
-			c.Run = func(resp map[string]string) Outcome {
-				impl, calls, _ := runParse(hh, splitPackets(resp["packets"]), firstFile, 4, -1, "", false)
-				out := Outcome{Impl: normCrash(impl), Model: normCrash(resp["model"]), OracleOK: true}
-				out.CorrOK = out.Impl == out.Model
-				if !strings.HasPrefix(impl, "err@") || len(calls) != want {
-					out.OracleOK = false
-					out.FindingKey = "count-mismatch-not-rejected"
-					out.Note = fmt.Sprintf("a table id re-announced with another column count was not rejected with an error after the %d earlier transactions: %s", want, clip(impl, 200))
-				}
-				return out
-			}
-			cs = append(cs, c)
-		}
+		cs = append(cs, countRedefCases(r, n/3, "count-mismatch-not-rejected")...)
 		runCases(col, theDriver, cs)
 	}
 
